@@ -7,7 +7,7 @@ use crate::proto::Ctx;
 pub fn meta() -> Meta {
     Meta {
         level: "model_checking",
-        rule: "every history of depth d (quick 4, thorough 5) over 13 actions on three handle registers (5 kind-specific operations, clone, 2 drops, gc, add_vars+new variable, reverse/rotate reordering, drop on another OS thread) for bdd, bcdd, zbdd, mtbdd, tdd, fresh manager per history, node stores of 32 (capacity probe) and 12 (failing operations); after every step: for every stored node ref_count() = #live handles + #stored parent edges (+ the ZBDD tautology chain), structure intact, every handle's table unchanged; after every gc: stored nodes = nodes reachable from live handles/manager data and the return value equals the drop in inner-node + terminal count; at the end of every history: drop everything + gc => initial node count (MTBDD: no terminals left) and the capacity probe (number of nodes creatable before OutOfMemory) equals that of a fresh manager. states = distinct model states, transitions = audited steps.",
+        rule: "every history of depth d (quick 4, thorough 5) over 13 actions on three handle registers (5 kind-specific operations, clone, 2 drops, gc, add_vars+new variable, reverse/rotate reordering, drop on another OS thread) for bdd, bcdd, zbdd, mtbdd, tdd, fresh manager per history, node stores of 32 (capacity probe) and 12 (failing operations); after every step: for every stored node ref_count() = #live handles + #stored parent edges (+ the ZBDD tautology chain), structure intact, every handle's table unchanged; after every gc: stored nodes = nodes reachable from live handles/manager data and the return value equals the drop in inner-node + terminal count; at the end of every history: drop everything + gc => initial node count (MTBDD: no terminals left) and the capacity probe (number of nodes creatable before OutOfMemory) equals that of a fresh manager, and with the store refilled to capacity the auditor accepts it and every probe diagram reads back as built. Extra configurations: MTBDD over F64; a one-variable constant-heavy MTBDD alphabet on a 6-entry terminal table; bdd/zbdd/mtbdd with every action issued from inside with_manager_shared of a second manager (the calling thread's store state is bound to that other manager). states = distinct model states, transitions = audited steps.",
         assumptions: vec![
             "the automatic background collection (95 % high-water mark, condvar wake-up) is not driven here; its effect - gc() under a shared lock at an arbitrary point - is scheduled exhaustively in C07".into(),
             "terminal reference counts are not exposed by the API; they are covered through num_terminals after teardown".into(),
@@ -20,11 +20,19 @@ pub fn meta() -> Meta {
 const KINDS: [&str; 5] = ["bdd", "bcdd", "zbdd", "mtbdd", "tdd"];
 
 pub fn shards(tier: &str) -> Vec<String> {
-    if tier == "thorough" {
+    let p = if tier == "thorough" { 2 } else { 1 };
+    let mut v = if tier == "thorough" {
         hist::shards_for(&KINDS, &["n32c16t1", "n12c16t1", "n32c1t2"], 2)
     } else {
         hist::shards_for(&KINDS, &["n32c16t1", "n12c16t1"], 1)
-    }
+    };
+    // F64 terminals; constant-heavy MTBDD histories on a 6-entry terminal table
+    v.extend(hist::shards_for(&["mtbddf"], &["n32c16t1"], p));
+    v.extend(hist::shards_for(&["mtbddc"], &["n32c16t1k6", "n32c16t1"], p));
+    v.extend(hist::shards_for(&["mtbddk"], &["n32c16t1k4"], p));
+    // every action issued from inside a session of another manager
+    v.extend(hist::shards_for(&["bdd", "zbdd", "mtbdd"], &["n32c16t1x"], p));
+    v
 }
 
 pub fn run(ctx: &mut Ctx) {
